@@ -166,6 +166,8 @@ class C02(Prop):
                 yield {"k": "rot", "kind": "map", "g": g, "ins": enum.idmap(n)}
                 qs = sorted(rng.sample(range(n - 6, n + 1), 3))
                 yield {"k": "rot", "kind": "list", "g": [g[q - 1] for q in qs] + [g[-1]], "qs": qs, "ins": ops}
+        for g in ([1, 0, 0, 0, 0, 1, 0], [1, 0, 3, 0, 0, 1, 0], [1, 2, 0, 0, 0, 1, 0], [1, 0, 0, 0, 0, 1, 0]):
+            yield {"k": "rotmap", "g": g, "printopts": True, "pkg": "py"}
         # (c4) a very wide register (520 qubits: arrays longer than numpy's print threshold of 1000 entries): rotation maps
         # of generators that agree on their first and last entries, one after the other in the same process
         n = 520
@@ -278,7 +280,14 @@ class C02(Prop):
     def _rotmap(self, scn, be):
         rec = {"op": "rotmap", "g": scn["g"]}
         try:
-            m = be.stabilizer.clifford_rotation_map(be.pauli(scn["g"]))
+            if scn.get("printopts"):
+                import numpy
+                # the host program lowered numpy's print threshold: arrays are abbreviated when turned into text
+                with numpy.printoptions(threshold=4, edgeitems=1):
+                    m = be.stabilizer.clifford_rotation_map(be.pauli(scn["g"]))
+                rec["printopts"] = True
+            else:
+                m = be.stabilizer.clifford_rotation_map(be.pauli(scn["g"]))
             rec["ret"] = be.p_list(m)
         except Exception as e:
             rec["exc"] = _exc(e)
